@@ -646,7 +646,8 @@ def do_step(k, plan, fs, ctx, rnd, sfp):
             perm = val.get_permutant().get_sequence()
             if sorted(perm) != sorted(w):
                 raise Violation("wrong_residues", "wrong_residues", "%s: a permutant of the object built from the file is %r..., the file holds %r..." % (desc, perm[:50], w[:50]))
-        elif got != ref_parse(durable)[1]:
+        elif got != ref_parse(durable)[1] and not (verdict == "either" and isinstance(got, str) and got.upper() == ref_parse(durable)[1]):
+            # (a file with soft-masked residues may be handed on as written: the objects built from it upper-case it)
             w = ref_parse(durable)[1]
             raise Violation("wrong_residues", "wrong_residues" + (":after_io_error" if fired else ""),
                             "%s: %s returned %d residues %r..., the file holds %d residues %r...%s" % (
